@@ -113,6 +113,9 @@ func (o Op) String() string {
 		if o.Arg == 12 {
 			return "ReadEverything"
 		}
+		if o.Arg == 13 {
+			return "UseEverything"
+		}
 		return fmt.Sprintf("Read#%d:%s(%q,v%d)", o.Arg, readCallNames[o.Arg], o.Key, o.Ver)
 	case OpImport:
 		return fmt.Sprintf("ExportImport(v%d,compress=%v)", o.Ver, o.Arg == 1)
@@ -315,7 +318,7 @@ func (w *World) Apply(op Op) *Violation {
 	if isMaint(op.Kind) {
 		w.NMaint++
 	}
-	if op.Kind == OpRead && op.Arg != 12 && !w.UnboundedReads {
+	if op.Kind == OpRead && op.Arg != 12 && op.Arg != 13 && !w.UnboundedReads {
 		w.NReads++
 	}
 	w.LastOp = op
